@@ -119,7 +119,7 @@ def classify(case, impl_res, ans, why):
 
 def gen(tier, rng):
     q = tier == 'quick'
-    for i in range(100 if q else 2500):
+    for i in range(400 if q else 4000):
         if i % 6 == 5:
             c = M.merge_case(rng, nprobes=2 + i % 2)
             yield dict(p=PID, probes=c['probes'], factor=1, label=['', 'probe01'][i % 2])
